@@ -113,7 +113,7 @@ def to_coq(case, obs):
             'c_rands := %s; c_lns := %s; c_draws := %s; o_handlers := %s; o_taps := %s; o_final_comp := %s; o_final_loci := %s; '
             'o_occ := %s; o_hit := %s; o_counts := %s; o_observations := %s; o_time := %s; o_events := %s; o_steps := %s; o_ok := true |}') % (
         cm, L.lst(nodes, L.z), L.lst(edges, L.zpair), L.lst(init, L.zpair), L.q(case['maxtime']),
-        '(Some %s)' % L.q(0.5) if case.get('seq') else 'None', L.b(case['dynamics'] == 'synchronous'),
+        '(Some %s)' % L.q(case.get('delta', 0.5)) if case.get('seq') else 'None', L.b(case['dynamics'] == 'synchronous'),
         L.lst(rands, L.q), L.lst(obs['lns'], L.q), L.lst([max(0, d) for d in obs['draws']], L.nat),
         L.lst(handlers), L.lst(taps), L.lst(final_comp, L.zpair), L.lst(final_loci), L.lst(occ), L.lst(hit), L.lst(counts),
         L.lst(observations), L.q(obs['time']), L.nat(obs['events']), L.nat(obs.get('steps') or 0))
